@@ -20,6 +20,9 @@ checks = {
  "C17": dict(technique="runtime monitoring: executed write/append/read/exists histories; printed results and a recursive snapshot of the sandbox file system compared with a model file system",
    text="History monitor against a model file system: single-store cells over 33 path spellings x contents (payloads, every printable character, newlines) x literal/run-time origin x top level/function x literal/computed append flag, and enumerated + random histories of write/append/read/exists over three paths; after each script the complete sandbox (every path, every byte) must equal the model, so a write touching another path is seen.",
    note="Trusted: RefLang interpreter's file model, sandbox snapshot. Bash only; literal spellings of \" $ ` \\ avoided (C08 finding).", ref="§3 C17"),
+ "C16": dict(technique="runtime monitoring: every emitted script of a whole-language workload goes through the shell's own syntax check (bash -n) and a structural linter over the emitted Batch text; converter call trace bracketing as supplementary monitor",
+   text="Output monitor over a whole-language workload (each builtin alone, empty blocks everywhere, nesting 1-6, 0-12 functions, loop/switch/function families, multi-file shapes, random programs including input/read/write/exists/@prog): Bash scripts must pass 'bash -n'; Batch scripts are parsed with the cmd model's block parser and linted: balanced blocks, labels defined once, goto/call targets defined, calls only to contained helpers/functions, helpers contained exactly when reachable, loop/if/return jumps confined to their construct (region count cross-checked with the generating program).",
+   note="Trusted: bash -n, the linter's label-family conventions (a changed convention makes the jump rule inconclusive, not violated).", ref="§3 C16"),
  "C15": dict(technique="runtime monitoring: differential execution of the compiled library under bash against Go's strings package on enumerated argument tuples",
    text="Differential monitor: for each of the 19 library functions, argument tuples over all strings of length 0-3 on {a, b, blank} plus longer overlapping strings, counts -2..4, slices of up to 4 elements, whitespace mixes; each call is compiled, executed under real bash and compared with the Go function of the same name (results framed so blanks and empties show).",
    note="Trusted: Go's strings package. ASCII arguments; the thorough tier covers ~35 000 tuples (pairs of 3-character strings thinned to one third).", ref="§3 C15"),
